@@ -149,8 +149,8 @@ defjvp(anp.angle, lambda g, ans, x: match_complex(ans, g * anp.conj(x * 1j) / an
 defjvp(
     anp.where,
     None,
-    lambda g, ans, c, x=None, y=None: match_complex(ans, anp.where(c, g, anp.zeros(anp.shape(g)))),
-    lambda g, ans, c, x=None, y=None: match_complex(ans, anp.where(c, anp.zeros(anp.shape(g)), g)),
+    lambda g, ans, c, x=None, y=None: match_complex(ans, anp.where(c, g, anp.zeros(anp.shape(ans)))),
+    lambda g, ans, c, x=None, y=None: match_complex(ans, anp.where(c, anp.zeros(anp.shape(ans)), g)),
 )
 
 # ----- Trickier grads -----
